@@ -43,13 +43,16 @@ def negate_post(pre, args, kwargs, result):
     return True
 
 
+GIVEN = [None]          # the object whose id the workload itself handed to the constructor (explicit whatever the object's own flag says)
+
+
 def negate_snap(args, kwargs):
     self = args[0]
     v = adapters.validated(self)
     if v is None:
         return None
     graph, top, info = v
-    return graph, top, info, (None if self.generated_id else self.id)
+    return graph, top, info, (self.id if (not self.generated_id or self is GIVEN[0]) else None)
 
 
 def not_snap(args, kwargs):
@@ -64,7 +67,7 @@ def not_snap(args, kwargs):
     if v is None:
         return None
     graph, top, info = v
-    return ("comp", graph, top, info, (None if prop.generated_id else prop.id))
+    return ("comp", graph, top, info, (prop.id if (not prop.generated_id or prop is GIVEN[0]) else None))
 
 
 def not_post(pre, args, kwargs, result):
@@ -178,11 +181,24 @@ def gen_case(rng, tier, ctx, i):
         rec = common.model_case(rng, tier, o)
         if rec is None:
             return None
-    return common.with_twins(rng, {"recipe": rec, "via": rng.choice(["negate", "Not", "double"])})
+    case = {"recipe": rec, "via": rng.choice(["negate", "Not", "double"])}
+    if rng.random() < 0.06:
+        case["explicit_generated"] = True
+    return common.with_twins(rng, case)
 
 
 def _run_one(case, ctx):
-    m = recipes.fresh(case["recipe"])
+    GIVEN[0] = None
+    if case.get("explicit_generated") and not case["recipe"].get("id") and case["recipe"]["k"] not in ("Not", "neg", "var", "str"):
+        # the id is GIVEN by the caller, and happens to be the one the library would have generated for this content (e.g. a model rebuilt
+        # under the id an earlier anonymous twin got): it is an explicitly given id all the same
+        twin = recipes.fresh(case["recipe"])
+        if not adapters.is_leaf(twin):
+            case = dict(case, recipe=dict(case["recipe"], id=twin.id))
+            ctx.count("count:explicit-id-equal-to-generated")
+            m = recipes.fresh(case["recipe"])
+            GIVEN[0] = m
+    m = GIVEN[0] if GIVEN[0] is not None else recipes.fresh(case["recipe"])
     if adapters.is_leaf(m):
         raise monitor.OutOfScope()
     common.domain(m, recipe=case["recipe"])
